@@ -1,4 +1,6 @@
 // Native demonstration of the public-API defects found by the lpmod family unit.
+// STATUS: (a) fixed by c2eb37f, (b) by 8abbce4, (c) by 788256a in /repo - on the fixed tree the demo shows the corrected behaviour; kept as reference
+// for the seeded faults defect_A_*/defect_B_*/defect_C_* of units/lpmod/gen.py, which re-introduce them.
 // build: g++ -std=c++14 -g -fno-access-control -I/repo/src -I/repo/_build native_public.cpp /repo/_build/lib/libsoplex.a -lgmp -lmpfr -lz -o t && ./t a && ./t b && ./t c
 // (a) clearLPRational() in real-only mode; (b) bound types vs INFTY parameter; (c) changeObjRational on a persistently scaled real LP
 #include <iostream>
